@@ -454,8 +454,10 @@ class YieldInjector:
     probability p and counts context switches observed inside bisturi frames."""
     TOOL = 4
 
-    def __init__(self, p, seed):
+    def __init__(self, p, seed, p_hot=0.5):
         self.p = p
+        self.p_hot = p_hot      # inside the deferred-expression evaluator (shared by all packets of a class)
+        self.hot = set()
         self.seed = seed
         self.tls = threading.local()
         self.last = None
@@ -491,7 +493,7 @@ class YieldInjector:
         r = getattr(self.tls, "r", None)
         if r is None:
             r = self.tls.r = random.Random(self.seed * 1000003 + (t % 100003))
-        if r.random() < self.p:
+        if r.random() < (self.p_hot if code in self.hot else self.p):
             time.sleep(0)
 
     def __enter__(self):
@@ -503,6 +505,8 @@ class YieldInjector:
             mon.use_tool_id(self.TOOL, "bvf-yield")
         mon.register_callback(self.TOOL, mon.events.LINE, self.cb)
         self.codes = self._codes()
+        import bisturi.deferred as bd
+        self.hot = {bd.exec_compiled_expr.__code__}
         for c in self.codes:
             mon.set_local_events(self.TOOL, c, mon.events.LINE)
         self.old = sys.getswitchinterval()
